@@ -1,6 +1,7 @@
 #!/usr/bin/env python3
 """quick manual mutation probe: tools/mut.py <file> <old> <new> <CHECK>... ; applies to /repo, runs checks, restores"""
-import subprocess, sys
+import os, subprocess, sys
+ENV = dict(os.environ, TF_OUT="/tmp/tfout-scratch")
 f, old, new = sys.argv[1:4]
 checks = sys.argv[4:]
 p = "/repo/" + f
@@ -11,7 +12,7 @@ if n == 0:
 open(p, "w").write(s.replace(old, new, 1))
 try:
     for c in checks:
-        r = subprocess.run(["/verif/check", c], capture_output=True, text=True)
+        r = subprocess.run(["/verif/check", c], capture_output=True, text=True, env=ENV)
         lines = [l for l in r.stdout.splitlines() if l.startswith("VIOLATION") or l.startswith("  rule=")]
         print("%s exit=%d %s" % (c, r.returncode, r.stdout.strip().splitlines()[-1] if r.stdout.strip() else r.stderr[-300:]))
         for l in lines[:4]:
